@@ -208,7 +208,17 @@ fn explore_tree(tree: &Tree, inst: &str, sc: &uni::Scratch, shard: usize, n: usi
 	let mut inv = Inv02 { inst: inst.to_string() };
 	// the lifting blocks p1..pN are applied once, below every history
 	let is_lift = |i: usize| tree.blocks[i].name.starts_with('p');
-	let prelude: Vec<Ev> = (0..tree.blocks.len()).filter(|i| is_lift(*i)).map(Ev::B).collect();
+	let mut prelude: Vec<Ev> = (0..tree.blocks.len()).filter(|i| is_lift(*i)).map(Ev::B).collect();
+	if inst.ends_with("+hdr") {
+		// headers first: the header chain of every fork is known (and header_head sits on the
+		// heaviest one) before any body arrives, as during sync
+		for i in 0..tree.blocks.len() {
+			let valid = |k: usize| !is_lift(k) && tree.valid(k).is_ok();
+			if valid(i) && !(0..tree.blocks.len()).any(|c| valid(c) && tree.blocks[c].parent == Some(i)) {
+				prelude.push(Ev::HS(i));
+			}
+		}
+	}
 	let mut ex = Explorer::with_prelude(tree, sc, Options::NONE, inst, &prelude);
 	ex.live_check = if reopen { 2 } else { 1 }; // thorough (= with reopen probes): probes offered to the long-lived node too
 	ex.shard = (shard, n);
@@ -241,6 +251,18 @@ fn forks(tier: Tier, shard: usize, n: usize) -> Report {
 				let tb = universe_b_lifted(scr, v, lift);
 				explore_tree(&tb, &ib, scr, shard, n, tier == Tier::Thorough, rep);
 			});
+			// the lifted universes once more with every header delivered before any body
+			if lift > 0 && (v == 0 || tier == Tier::Thorough) {
+				let (ia, ib) = (format!("A{}{}+hdr", v, tag), format!("B{}{}+hdr", v, tag));
+				crate::chainx::guarded(&ia.clone(), &mut rep, move |rep| {
+					let ta = universe_a_lifted(scr, v, lift);
+					explore_tree(&ta, &ia, scr, shard, n, tier == Tier::Thorough, rep);
+				});
+				crate::chainx::guarded(&ib.clone(), &mut rep, move |rep| {
+					let tb = universe_b_lifted(scr, v, lift);
+					explore_tree(&tb, &ib, scr, shard, n, tier == Tier::Thorough, rep);
+				});
+			}
 		}
 	}
 	// sanity of the universes themselves (vacuity guard): count reference-invalid blocks
@@ -351,6 +373,8 @@ impl Engine for C02 {
 			evs.extend(case["events"].as_array().cloned().unwrap_or_default());
 			return crate::chainx::replay_events(&tree, &json!({"events": evs}), Options::NONE, &sc);
 		}
+		let hdr = inst.ends_with("+hdr");
+		let inst = inst.trim_end_matches("+hdr");
 		let (vs, lift) = match inst[1..].split_once('+') {
 			Some((a, b)) => (a, b.parse().unwrap_or(0)),
 			None => (&inst[1..], 0usize),
@@ -359,6 +383,15 @@ impl Engine for C02 {
 		let tree = if inst.starts_with('A') { universe_a_lifted(&sc, v, lift) } else { universe_b_lifted(&sc, v, lift) };
 		// the lifting blocks come first
 		let mut evs: Vec<Value> = (1..=lift).map(|i| json!(format!("B(p{})", i))).collect();
+		if hdr {
+			let is_lift = |i: usize| tree.blocks[i].name.starts_with('p');
+			for i in 0..tree.blocks.len() {
+				let valid = |k: usize| !is_lift(k) && tree.valid(k).is_ok();
+				if valid(i) && !(0..tree.blocks.len()).any(|c| valid(c) && tree.blocks[c].parent == Some(i)) {
+					evs.push(json!(Ev::HS(i).show(&tree)));
+				}
+			}
+		}
 		evs.extend(case["events"].as_array().cloned().unwrap_or_default());
 		crate::chainx::replay_events(&tree, &json!({"events": evs}), Options::NONE, &sc)
 	}
